@@ -21,42 +21,33 @@ fn main() {
     // a failed build or an output file that cannot be written must be visible to the caller
     let mut failed = false;
 
-    let file_name = opt
-        .source
+    let file_name = opt.source.to_string_lossy().to_string();
+
+    // `<stem><suffix>` next to the source (also when the name is not valid UTF-8)
+    let default_output = |suffix: &str| {
+        let mut out_file_name = opt
+            .source
+            .as_path()
+            .file_stem()
+            .unwrap_or_default()
+            .to_os_string();
+        out_file_name.push(suffix);
+        opt.source
+            .parent()
+            .unwrap_or(&Path::new("."))
+            .join(out_file_name)
+    };
+    let code_path = opt.output.clone().unwrap_or_else(|| default_output(".hex"));
+    let eeprom_path = opt
+        .eeprom
         .clone()
-        .into_os_string()
-        .into_string()
-        .unwrap_or(String::new());
+        .unwrap_or_else(|| default_output(".eep.hex"));
 
     match build_file(opt.source.clone(), btreeset! { get_standard_includes() }) {
         Ok(built) => {
             // write to file code
             if !built.code.is_empty() {
-                let outpath = if let Some(output) = opt.output {
-                    output
-                } else {
-                    let mut source_parent = opt
-                        .source
-                        .clone()
-                        .parent()
-                        .unwrap_or(&Path::new("."))
-                        .to_path_buf();
-                    let mut out_file_name = String::from(
-                        opt.source
-                            .as_path()
-                            .file_stem()
-                            .unwrap()
-                            .to_str()
-                            .unwrap_or(""),
-                    );
-                    out_file_name += ".hex";
-
-                    source_parent.push(out_file_name);
-
-                    source_parent
-                };
-
-                match write_code_hex(outpath, &built) {
+                match write_code_hex(code_path, &built) {
                     Ok(()) => {}
                     Err(e) => {
                         failed = true;
@@ -71,31 +62,7 @@ fn main() {
             }
             // write to file eeprom
             if !built.eeprom.is_empty() {
-                let outpath = if let Some(output) = opt.eeprom {
-                    output
-                } else {
-                    let mut source_parent = opt
-                        .source
-                        .clone()
-                        .parent()
-                        .unwrap_or(&Path::new("."))
-                        .to_path_buf();
-                    let mut out_file_name = String::from(
-                        opt.source
-                            .as_path()
-                            .file_stem()
-                            .unwrap()
-                            .to_str()
-                            .unwrap_or(""),
-                    );
-                    out_file_name += ".eep.hex";
-
-                    source_parent.push(out_file_name);
-
-                    source_parent
-                };
-
-                match write_eeprom_hex(outpath, &built) {
+                match write_eeprom_hex(eeprom_path, &built) {
                     Ok(()) => {}
                     Err(e) => {
                         failed = true;
